@@ -220,9 +220,16 @@ def monitorAnnounced (script : List Cmd) (iters : List Iter) (d : Nat) : Option 
   let pk := sentBy iters d
   let tEnd := (iters.getLast?.map (·.now)).getD 0
   let ifs := ((script.filterMap fun c => match c with | .daemon ifs => some ifs | _ => none)[d]?).getD []
-  regs.findSome? fun ((kr, full, _, ips, _, auto) : Nat × BList × BList × List String × Bool × Bool) =>
+  regs.findSome? fun ((kr, full, host, ips, _, auto) : Nat × BList × BList × List String × Bool × Bool) =>
     -- registered once under this name
     if (regs.filter fun o => o.2.1 == full).length != 1 then none else
+    -- a registration that shares its host name with another one may wait for the other's address
+    -- records: every record that joins the probe of the host name starts that probe over (repair
+    -- of D33) - bounded, but not by two seconds
+    let hostKey (h : BList) : BList :=
+      let dbl := [0x2E, 0x6C, 0x6F, 0x63, 0x61, 0x6C, 0x2E, 0x6C, 0x6F, 0x63, 0x61, 0x6C, 0x2E]
+      if dbl.isSuffixOf h then h.take (h.length - 6) else h
+    if (regs.filter fun o => hostKey o.2.2.1 == hostKey host).length != 1 then none else
     let tr := timeOf iters kr
     -- usable: some address of the service lies in the subnet of some interface address
     let usable := auto || ips.any fun ipS =>
@@ -346,6 +353,48 @@ def monitorKnownAnswers (script : List Cmd) (iters : List Iter) (d : Nat) : Opti
         if listed && p.dest == "m" && r.ttl > 0 then
           some s!"answer-sent-although-listed-as-known-answer rec={hexOfBytes r.name}/{r.ty} t={p.t}"
         else none
+
+/-- `ok_C06`, completeness for address questions: in a calm history (no unregister, shutdown,
+    interface change, conflict) a host name whose address record the daemon has announced on an
+    interface is answered for - every A / AAAA / ANY question on that name in a query gets that
+    record in the answer section, unless the query lists it as a known answer with more than half
+    its TTL - whatever else the same query asks.  Only iterations that read exactly one datagram
+    and made no API call are judged. -/
+def monitorAddressAnswers (script : List Cmd) (iters : List Iter) (d : Nat) : Option String :=
+  if !plainNames script then none else
+  let calm := !(script.any fun c => match c with
+      | .unregister .. | .shutdown .. | .ifaces .. | .now _ => true
+      | .other ("enable" :: _) | .other ("disable" :: _) => true
+      | _ => false) &&
+    !(iters.any fun it => it.d == d && it.evs.any fun e => e.2.headD "" == "namechange")
+  if !calm then none else
+  let pk := sentBy iters d
+  let rxs := readBy iters d
+  -- a response read by the daemon may be a conflict: not calm
+  if rxs.any (·.resp) then none else
+  -- registered once per name: re-registrations change the address sets
+  let calls := processedCalls script iters cmdDaemonR
+  let regs := registers calls d
+  if regs.any (fun a => regs.any fun b => a.1 != b.1 && a.2.1 == b.2.1) then none else
+  rxs.findSome? fun x =>
+    let alone := (rxs.filter fun y => y.k == x.k).length == 1
+    let quietIter := (iters.toArray[x.k]?.map fun it => it.calls.isEmpty &&
+      !(it.evs.any fun e => e.2.headD "" == "announce")).getD false
+    if !alone || !quietIter then none else
+    -- address records announced on this interface and family before (unsolicited, answer section)
+    let held := (pk.filter fun p => p.k < x.k && p.resp && p.dest == "m" && p.ifi == x.ifi && p.v4 == x.v4 &&
+        (iters.toArray[p.k]?.map fun it => it.rx.isEmpty).getD false).flatMap fun p =>
+      p.m.answers.filter fun r => (r.ty == 1 || r.ty == 28) && r.ttl > 0
+    let out := pk.filter fun p => p.k == x.k && p.resp
+    x.m.questions.findSome? fun q =>
+      held.findSome? fun h =>
+        if !(lower h.name == lower q.name && (q.ty == h.ty || q.ty == 255)) then none else
+        let listed := x.m.answers.any fun ka =>
+          lower ka.name == lower h.name && ka.ty == h.ty && ka.rdata == h.rdata && decide (2 * ka.ttl > h.ttl)
+        let answered := out.any fun p => (p.m.answers ++ p.m.additionals).any fun r =>
+          lower r.name == lower h.name && r.ty == h.ty && r.rdata == h.rdata && r.ttl > 0
+        if listed || answered then none
+        else some s!"address-question-not-answered host={hexOfBytes q.name} qtype={q.ty} t={x.t}"
 
 /-! ### C06 -/
 
